@@ -870,6 +870,9 @@ func deserializeArrowSerializable(targetType reflect.Type, data []byte) (reflect
 		return reflect.Value{}, fmt.Errorf("no batch in ArrowSerializable IPC stream")
 	}
 	batch := reader.RecordBatch()
+	if batch.NumRows() < 1 {
+		return reflect.Value{}, fmt.Errorf("ArrowSerializable IPC batch has no rows")
+	}
 
 	result := reflect.New(targetType).Elem()
 	for i := range targetType.NumField() {
